@@ -45,6 +45,9 @@ DEFAULT_CTX_SCHEMES = ["apr_md5_crypt", "bcrypt", "sha256_crypt", "sha512_crypt"
                        "md5_crypt", "sha1_crypt", "bsdi_crypt"]
 CUSTOM_SCHEMES = ["apr_md5_crypt", "md5_crypt", "sha256_crypt", "des_crypt", "ldap_sha1", "ldap_salted_sha1", "pbkdf2_sha256", "phpass",
                   "bcrypt", "hex_md5"]
+# default_scheme= aliases of HtpasswdFile, as documented (a bcrypt backend is available on this image)
+DS_ALIASES = {"portable_apache_22": "apr_md5_crypt", "linux_apache_22": "sha256_crypt", "portable": "bcrypt", "portable_apache_24": "bcrypt",
+              "linux_apache_24": "bcrypt", "host": "bcrypt", "host_apache_24": "bcrypt"}
 BAD_NAMES = ["a:b", "a\nb", "a\rb", "a\tb", "a\x00b", "x" * 256, ":", "\n"]
 
 
@@ -93,6 +96,13 @@ def generate(rng, prop, tier):
         schemes = sch
     if cls == "htdigest":
         schemes = ["htdigest"]
+    default_scheme = None
+    if cls == "htpasswd" and rng.random() < 0.35:
+        if context == "default":
+            default_scheme = rng.choice(["portable_apache_22", "apr_md5_crypt"])  # (the others cost 12 bcrypt rounds / 535000 sha rounds per hash)
+        else:
+            live = [s for s in context["schemes"] if s not in context["deprecated"]]
+            default_scheme = rng.choice(live + [a for a, t in sorted(DS_ALIASES.items()) if t in live])
     faults_on = rng.random() < 0.5
     encoding = rng.choice(["utf-8", "utf-8", "latin-1"])
     if encoding != "utf-8":
@@ -103,7 +113,7 @@ def generate(rng, prop, tier):
         "autosave": rng.random() < 0.4, "context": context, "default_realm": rng.choice([None, "r1"]) if cls == "htdigest" else None,
         "gran": rng.choice([1.0, 1.0, 0.01, 1e-9, 2.0]), "server": rng.random() < 0.5, "unbound": rng.random() < 0.3,
         "initial": _gen_lines(rng, cls, schemes, rng.choice([0, 1, 3, 5, 8, 12]), allow_bad=rng.random() < 0.1),
-        "file_exists": rng.random() < 0.9, "faults_on": faults_on, "seed": rng.getrandbits(32),
+        "file_exists": rng.random() < 0.9, "faults_on": faults_on, "seed": rng.getrandbits(32), "default_scheme": default_scheme,
     }
     nobj = 1 + int(cfg["server"]) + int(cfg["unbound"])
     ops = []
@@ -235,6 +245,8 @@ class _W:
                 self.context = CryptContext(**kw)
                 self.default_scheme = cfg["context"]["schemes"][0]
                 self.deprecated = set(cfg["context"]["deprecated"])
+            if cfg.get("default_scheme"):
+                self.default_scheme = DS_ALIASES.get(cfg["default_scheme"], cfg["default_scheme"])
         self.features = set()
         if cfg["file_exists"]:
             self.fs.put(PATH, self.materialise(cfg["initial"], initial=True))
@@ -303,6 +315,8 @@ class _W:
         if cfg["cls"] == "htpasswd":
             if cfg["context"] != "default":
                 kw["context"] = self.context
+            if cfg.get("default_scheme"):
+                kw["default_scheme"] = cfg["default_scheme"]
             C = self.pa.HtpasswdFile
         else:
             kw["default_realm"] = cfg["default_realm"]
@@ -488,6 +502,14 @@ class _W:
         ctx.check(cur is not None, "C16", "set-not-visible", f"{op['op']}({a}): get_hash is None afterwards", op=op["op"])
         if op["op"] == "set_password":
             self.known[cur] = (op["pw"], scheme)
+            if self.nf == 2 and cur is not None:
+                H = getattr(self.ph, scheme)
+                with warnings.catch_warnings():
+                    warnings.simplefilter("ignore")
+                    good = H.identify(cur) and H.verify(op["pw"].encode(self.enc), cur)
+                ctx.check(good, "C16", "new-hash-not-from-default-scheme",
+                          lambda: f"set_password stored {cur!r}: not a {scheme} hash of {op['pw']!r} (default_scheme={self.cfg.get('default_scheme')!r})",
+                          scheme=scheme)
         else:
             ctx.check(cur == hb, "C16", "set-hash-stored-differently", f"stored {cur!r} given {hb!r}")
         ctx.check(r[1] is existed, "C16", "return-value", f"{op['op']}({a}) returned {r[1]!r}, user existed: {existed}", op=op["op"])
@@ -601,6 +623,17 @@ class _W:
         def dec_(b):
             return b.decode(self.enc) if ru else b
 
+        if k in ("users", "realms") and ru:
+            try:
+                for x in model.recs:
+                    for part in ((x,) if self.nf == 2 else x):
+                        part.decode(self.enc)
+            except UnicodeDecodeError:
+                # a name in the file is not text in the configured encoding (a foreign writer cut a multi-byte character):
+                # listing names as text has no defined answer; nothing is judged
+                ctx.probe("undecodable_name_in_file")
+                self.call(getattr(ht, k), *(() if k == "realms" or self.nf == 2 else (op.get("realm") or self.cfg["default_realm"] or "r1",)))
+                return
         if k == "get_hash":
             if self.nf == 3 and op.get("realm") is None and not self.cfg["default_realm"]:
                 return
